@@ -248,6 +248,7 @@ pub fn panic_site(msg: &str) -> String {
     match msg.rfind(" at ") {
         Some(p) => {
             let loc = &msg[p + 4..];
+            let loc = loc.split(" [").next().unwrap_or(loc);
             let file = loc.rsplit('/').next().unwrap_or(loc);
             file.split(':').next().unwrap_or(file).to_string()
         }
